@@ -153,9 +153,16 @@ def classify(case, ctx=None, n1=400, do_law=True):
             ch, sc, rv, ww = impl(bs, keys)
             return gfi.to_np(ch), np.asarray(sc), np.asarray(rv), np.asarray(ww)
 
+        def switched(ch):
+            try:
+                pn = preds_of(ref, rargs1, rkw1, ch)
+            except Exception:  # noqa: BLE001
+                return False
+            return len(pn) != len(p_old) or any(a[:2] == b[:2] and a[2] != b[2] for a, b in zip(p_old, pn))
+
         try:
             f3, li = lawtest.check_law(ctx, prog, ref, rargs1, rkw1, draw, n1, F, case["key"], fixed=fixed, fixed_paths=unselected,
-                                       extra_name="weight", extra_ref=None if has_cond else wref, tag="law")
+                                       extra_name="weight", extra_ref=None if has_cond else wref, tag="law", switch_probe=switched)
             fails += [(b.replace("|", f":{kind}|", 1), m) for b, m in f3]
             info.update(li)
         except ImplError as e:
@@ -190,7 +197,7 @@ def run_shard(ctx):
         env.reset()
         fails, info = classify(case, ctx, P["n1"])
         fs = modelir.features(case["prog"])
-        nt = info.get("sel_kind") == "proper" or bool(fs & {"scan", "vmap", "vdist"})
+        nt = info.get("sel_kind") == "proper" or bool(fs & {"scan", "vmap", "vdist", "nest"})
         cls = [f"C04.sel_{info.get('sel_kind')}", f"C04.args_{'changed' if info.get('args_changed') else 'same'}"] + [f"C04.prog_with_{f}" for f in sorted(fs)]
         if info.get("reaches_into_subcall"):
             cls.append("C04.selection_reaches_into_subcall")
@@ -207,6 +214,8 @@ def run_shard(ctx):
     forces = ["scan", "vmap", "indicator", "cond", "vdist", "call", None, "indicator"]
     drive(ctx, cases(False, forces[ctx.shard % len(forces)]), n - n // 3, one, "cont")
     drive(ctx, cases(True, forces[(ctx.shard + 1) % len(forces)]), n // 3, one, "disc")
+    nk = modelir.NEST_KINDS  # combinators applied directly to combinators
+    drive(ctx, cases(ctx.shard % 3 == 2, nk[ctx.shard % len(nk)]), P.get("n_nest", max(2, n // 3)), one, "nest")
 
 
 def replay(case):
